@@ -1024,6 +1024,28 @@ class Pass3(CompilePass):
                 'WHILE condition should be a numeric expression',
                 node=node.cond)
 
+    def process_if_pre(self, node):
+        if not node.cond.type.is_numeric:
+            raise CompileError(
+                EC.TYPE_MISMATCH,
+                'IF condition should be a numeric expression',
+                node=node.cond)
+
+    def process_if_block_pre(self, node):
+        for cond, _ in node.if_blocks:
+            if not cond.type.is_numeric:
+                raise CompileError(
+                    EC.TYPE_MISMATCH,
+                    'IF condition should be a numeric expression',
+                    node=cond)
+
+    def process_loop_block_pre(self, node):
+        if node.cond is not None and not node.cond.type.is_numeric:
+            raise CompileError(
+                EC.TYPE_MISMATCH,
+                'Loop condition should be a numeric expression',
+                node=node.cond)
+
 
 class Compiler:
     def __init__(self, codegen_name, optimization_level=0,
